@@ -213,19 +213,20 @@ func runLimTok(text string) limTokCase {
 // ---- end to end: ORDER BY / LIMIT through the planner -----------------------------------------------------------------
 
 type e2eCase struct {
-	Mode     string     `json:"mode"` // e2e12 | e2e11 | e2e13
-	Shape    string     `json:"shape"`
-	Kinds    []string   `json:"kinds,omitempty"`
-	Triples  []string   `json:"triples"`
-	BaseQ    string     `json:"base_q"`
-	Q        string     `json:"q"`
-	Cfg      []jkey     `json:"cfg,omitempty"`      // ORDER BY as written
-	CfgSeen  []jkey     `json:"cfg_seen,omitempty"` // Statement.OrderByConfig() after the checker's rewrite
-	Limit    *int64     `json:"limit,omitempty"`
-	Base     execResult `json:"base"`
-	Res      execResult `json:"res"`
-	PdMask   []bool     `json:"pd_mask"` // push-down shapes: per graph triple in driver order, does it match the clause
-	Extra    interface{} `json:"extra,omitempty"`
+	Mode    string              `json:"mode"` // e2e12 | e2e11 | e2e13
+	Shape   string              `json:"shape"`
+	Kinds   []string            `json:"kinds,omitempty"`
+	Triples []string            `json:"triples"`
+	BaseQ   string              `json:"base_q"`
+	Q       string              `json:"q"`
+	Cfg     []jkey              `json:"cfg,omitempty"`      // ORDER BY as written
+	CfgSeen []jkey              `json:"cfg_seen,omitempty"` // Statement.OrderByConfig() after the checker's rewrite
+	Limit   *int64              `json:"limit,omitempty"`
+	Base    execResult          `json:"base"`
+	Res     execResult          `json:"res"`
+	Graphs  map[string][]string `json:"graphs,omitempty"` // several FROM graphs: the triples of each
+	PdMask  []bool              `json:"pd_mask"`          // push-down shapes: per graph triple in driver order, does it match the clause
+	Extra   interface{}         `json:"extra,omitempty"`
 }
 
 // driverOrder lists the triples of ?g in the order the driver returns them (memory: sorted by Triple.String()).
@@ -245,7 +246,7 @@ func driverOrder(ctx context.Context, st storage.Store) []*triple.Triple {
 	return out
 }
 
-var subjects = [][2]string{{"/u", "a"}, {"/u", "b"}, {"/u", "c"}, {"/t", "d"}, {"/t", "a"}}
+var subjects = [][2]string{{"/u", "a"}, {"/u", "b"}, {"/u", "c"}, {"/t", "d"}, {"/t", "a"}, {"/u/x", "a"}, {"/u", "al"}, {"/u/x", "al"}, {"/ux", "a"}}
 
 func genObject(r *rand.Rand, kind string) *triple.Object {
 	c := genCell(r, kind)
@@ -269,7 +270,7 @@ func genObject(r *rand.Rand, kind string) *triple.Object {
 }
 
 var objKindsD12 = []string{"intD", "floatD", "textD", "node", "pred", "bool"}
-var objKindsAll = []string{"intD", "floatD", "textD", "node", "pred", "bool", "int", "float", "text", "blob", "tpred", "floatN", "digits", "digitsT"}
+var objKindsAll = []string{"intD", "floatD", "textD", "node", "pred", "bool", "int", "float", "text", "blob", "tpred", "floatN", "digits", "digitsT", "collide", "node"}
 
 func genObjKinds(r *rand.Rand, class string) []string {
 	switch class {
@@ -361,7 +362,12 @@ func genE2E12(r *rand.Rand) e2eCase {
 	c.Kinds = append(append([]string{class}, vK...), wK...)
 	ts := genTriples(r, vK, wK, 2+r.Intn(8), class == "D12")
 	c.Triples = tripleStrings(ts)
-	st := newGraph(ctx, "?g", ts)
+	st, from := newGraph(ctx, "?g", ts), "?g"
+	multi := r.Intn(3) == 0
+	if multi { // the data split over 2-3 graphs in FROM (with overlaps): the driver is asked once per graph
+		st, from, c.Graphs = splitGraphs(ctx, r, ts)
+		c.Kinds = append(c.Kinds, "FROM "+from)
+	}
 	var sel, where string
 	var outs []string
 	switch r.Intn(7) {
@@ -388,8 +394,8 @@ func genE2E12(r *rand.Rand) e2eCase {
 		c.Shape = "full-scan" // the only shape for which the planner pushes LIMIT into the driver
 		sel, where, outs = "?s, ?p, ?o", `{?s ?p ?o}`, []string{"?s", "?p", "?o"}
 	}
-	c.BaseQ = "SELECT " + sel + " FROM ?g WHERE " + where + ";"
-	q := "SELECT " + sel + " FROM ?g WHERE " + where
+	c.BaseQ = "SELECT " + sel + " FROM " + from + " WHERE " + where + ";"
+	q := "SELECT " + sel + " FROM " + from + " WHERE " + where
 	if r.Intn(8) != 0 {
 		nk := 1 + r.Intn(3)
 		for i := 0; i < nk; i++ {
@@ -415,7 +421,7 @@ func genE2E12(r *rand.Rand) e2eCase {
 	}
 	c.Q = q + ";"
 	c.Base, _ = runQuery(ctx, st, c.BaseQ)
-	if c.Shape == "full-scan" || c.Shape == "anchor" {
+	if (c.Shape == "full-scan" || c.Shape == "anchor") && !multi {
 		for _, t := range driverOrder(ctx, st) {
 			m := true
 			if c.Shape == "anchor" {
